@@ -9,10 +9,12 @@ import (
 	"os"
 	"os/exec"
 	"path/filepath"
+	"runtime"
 	"sort"
 	"strings"
 	"sync"
 	"sync/atomic"
+	"syscall"
 	"time"
 
 	"github.com/goose-lang/goose/machine/disk"
@@ -24,6 +26,7 @@ import (
 func init() {
 	Registry["C10"] = C10
 	children["race-disk"] = raceDiskChild
+	children["disk-delay"] = diskDelayChild
 }
 
 const patMul = 0x9E3779B97F4A7C15
@@ -401,6 +404,20 @@ func C10(c *ev.Ctx) {
 		fileOv += overlapScore(bevs)
 		fileN += bn
 		c.Set("file_burst_rounds", bn)
+		// the same bursts with the system calls of the writers slowed down selectively (strace delay injection)
+		devs, derr := runDiskDelay(c, c.Pick(150, 1200))
+		if derr != nil {
+			c.Inconclusive("%v", derr)
+		} else {
+			for i, e := range devs {
+				if e["ev"] == "reset" {
+					fileSeg[len(fileEvs)+i] = "file bursts under strace delay injection (every second fstat/ftruncate/pwrite64/pread64 of a thread is delayed 1.2 ms; parity chosen at random per operation)"
+					fileN++
+				}
+			}
+			fileEvs = append(fileEvs, devs...)
+			c.Set("file_delayed_rounds", c.Pick(150, 1200)*2)
+		}
 	}
 	c.Sample(map[string]any{"kind": "mem history prefix", "events": memEvs[:min(16, len(memEvs))]})
 	lin := func(module string, evs []map[string]any, seg map[int]string, dfs bool, nh int) {
@@ -596,6 +613,17 @@ func classifyHT(b []byte) int {
 // that differ from the base in disjoint halves, then the address is read; (2) on a freshly created image two clients
 // write two distinct addresses at once (the first writes the image ever gets), then both are read.
 func fileBursts(c *ev.Ctx, imgDir string, nextVal *int64) ([]map[string]any, map[int]string, int) {
+	evs, seg, rounds, err := fileBurstRounds(imgDir, nextVal, c.Pick(8, 80), 250, c.Pick(2500, 25000), nil)
+	if err != nil {
+		c.Inconclusive("%v", err)
+	}
+	return evs, seg, rounds
+}
+
+// fileBurstRounds is the driver proper. perturb, if not nil, is called by a writer on its own (locked) OS thread
+// right before its Write: under strace with parity-selected delays it decides which of the writer's system calls
+// are slowed down, so that the windows between the system calls of one operation are explored.
+func fileBurstRounds(imgDir string, nextVal *int64, blocks1, per1, rounds2 int, perturb func(g int)) ([]map[string]any, map[int]string, int, error) {
 	var evs []map[string]any
 	seg := map[int]string{}
 	var seq atomic.Int64
@@ -652,8 +680,20 @@ func fileBursts(c *ev.Ctx, imgDir string, nextVal *int64) ([]map[string]any, map
 		bar := &spinBarrier{n: 2}
 		var wg sync.WaitGroup
 		wg.Add(2)
-		go func() { defer wg.Done(); bar.wait(); f1() }()
-		go func() { defer wg.Done(); bar.wait(); f2() }()
+		run := func(g int, f func()) {
+			defer wg.Done()
+			if perturb != nil {
+				runtime.LockOSThread()
+				defer runtime.UnlockOSThread()
+			}
+			bar.wait()
+			if perturb != nil {
+				perturb(g)
+			}
+			f()
+		}
+		go run(1, f1)
+		go run(2, f2)
 		wg.Wait()
 	}
 	rounds := 0
@@ -663,11 +703,10 @@ func fileBursts(c *ev.Ctx, imgDir string, nextVal *int64) ([]map[string]any, map
 		_ = os.Remove(p)
 		d, err := disk.NewFileDisk(p, 2)
 		if err != nil {
-			c.Inconclusive("NewFileDisk: %v", err)
-			return nil, nil, 0
+			return nil, nil, 0, fmt.Errorf("NewFileDisk: %v", err)
 		}
-		per := 250
-		for blk := 0; blk < c.Pick(8, 80); blk++ {
+		per := per1
+		for blk := 0; blk < blocks1; blk++ {
 			for r := 0; r < per; r++ {
 				a := r % 2
 				write(d, 0, a, htBase, htBlock(0, 3))
@@ -681,14 +720,13 @@ func fileBursts(c *ev.Ctx, imgDir string, nextVal *int64) ([]map[string]any, map
 		d.Close()
 	}
 	// (2) fresh image, two distinct addresses written at once
-	for r := 0; r < c.Pick(2500, 25000); r++ {
+	for r := 0; r < rounds2; r++ {
 		p := filepath.Join(imgDir, "fresh.img")
 		_ = os.Remove(p)
 		n := 4 + r%5
 		d, err := disk.NewFileDisk(p, uint64(n))
 		if err != nil {
-			c.Inconclusive("NewFileDisk: %v", err)
-			break
+			return evs, seg, rounds, fmt.Errorf("NewFileDisk: %v", err)
 		}
 		lo := r % (n - 1)
 		hi := lo + 1 + (r/7)%(n-1-lo)
@@ -700,5 +738,86 @@ func fileBursts(c *ev.Ctx, imgDir string, nextVal *int64) ([]map[string]any, map
 		flush(fmt.Sprintf("file fresh image n=%d: concurrent first writes to addresses %d and %d, then reads", n, lo, hi), n)
 		rounds++
 	}
-	return evs, seg, rounds
+	return evs, seg, rounds, nil
+}
+
+// diskDelayChild runs the burst driver while strace delays every second invocation (per thread, per system call) of
+// the I/O system calls. Before each Write the writer makes, at random, dummy calls of the same kinds on a scratch
+// descriptor, which flips the parity and so selects which system calls of the real operation are slowed down.
+func diskDelayChild(args []string) int {
+	var seed uint64
+	var rounds int
+	fmt.Sscan(args[0], &seed)
+	fmt.Sscan(args[1], &rounds)
+	scratch, out := args[2], args[3]
+	imgDir := mustMkdir(filepath.Join(scratch, "img10d"))
+	dummy, err := os.OpenFile(filepath.Join(imgDir, "dummy"), os.O_CREATE|os.O_RDWR, 0644)
+	if err != nil {
+		fmt.Println(err)
+		return 3
+	}
+	defer dummy.Close()
+	fd := int(dummy.Fd())
+	var rmu sync.Mutex
+	r := rand.New(rand.NewPCG(seed, 1099))
+	perturb := func(g int) {
+		rmu.Lock()
+		x := r.IntN(16)
+		rmu.Unlock()
+		one := []byte{1}
+		var st syscall.Stat_t
+		if x&1 != 0 {
+			_ = syscall.Fstat(fd, &st)
+		}
+		if x&2 != 0 {
+			_ = syscall.Ftruncate(fd, 1)
+		}
+		if x&4 != 0 {
+			_, _ = syscall.Pwrite(fd, one, 0)
+		}
+		if x&8 != 0 {
+			_, _ = syscall.Pread(fd, one, 0)
+		}
+	}
+	var nextVal int64 = 1 << 20
+	evs, _, n, err := fileBurstRounds(imgDir, &nextVal, 1, rounds, rounds, perturb)
+	if err != nil {
+		fmt.Println(err)
+		return 3
+	}
+	if err := writeNDJSON(out, evs); err != nil {
+		fmt.Println(err)
+		return 3
+	}
+	fmt.Printf("DELAY-DRIVER-DONE %d rounds\n", n)
+	return 0
+}
+
+// runDiskDelay starts the child under strace with the delay injections; returns its history.
+func runDiskDelay(c *ev.Ctx, rounds int) ([]map[string]any, error) {
+	self, _ := os.Executable()
+	out := filepath.Join(c.Scratch, "delay-hist.ndjson")
+	_ = os.Remove(out)
+	a := []string{"-f", "-qq", "-o", "/dev/null", "-e", "trace=fstat,newfstatat,ftruncate,pwrite64,pread64"}
+	for _, sc := range []string{"fstat", "newfstatat", "ftruncate", "pwrite64", "pread64"} {
+		a = append(a, "-e", fmt.Sprintf("inject=%s:delay_enter=%d:when=2+2", sc, 1200))
+	}
+	a = append(a, self, "-child", "disk-delay", fmt.Sprint(c.Seed), fmt.Sprint(rounds), c.Scratch, out)
+	o, err, timedOut := runWithDeadline(exec.Command("strace", a...), 10*time.Minute)
+	if timedOut || err != nil || !strings.Contains(o, "DELAY-DRIVER-DONE") {
+		return nil, fmt.Errorf("strace-delayed driver failed (%v, timed out %v): %s", err, timedOut, tlc.Tail(o, 10))
+	}
+	b, err := os.ReadFile(out)
+	if err != nil {
+		return nil, err
+	}
+	var evs []map[string]any
+	for _, ln := range strings.Split(strings.TrimSpace(string(b)), "\n") {
+		var e map[string]any
+		if json.Unmarshal([]byte(ln), &e) != nil {
+			return nil, fmt.Errorf("bad history line")
+		}
+		evs = append(evs, e)
+	}
+	return evs, nil
 }
